@@ -413,7 +413,7 @@ for _p, _t in ADDENDA13.items():
 ADDENDA14 = {
     'C01': "(W, extended) tip states are encoding(symbol) clamped at state_count, the index of the all-ones column of the tip-state kernels (C02.M clamp rule).",
     'C03': "(G, extended) the matrices, frequencies and tip data handed to both the plain and the rescaling kernel are those of this tree: p_t(branch quantity x site rate), "
-           "unaltered (the C01.B assembly rules).",
+           "unaltered (the C01.B assembly rules), and no p_t floors / clamps its time argument (C04.E clause).",
     'C10': "(A, extended) a name bound to a Python number on one branch and to a tensor on the other has the tensor's layout; in the else of isinstance(self.a, ...Parameter) "
            "the attribute is a number.",
 }
